@@ -41,6 +41,7 @@ func NewFileStream(path string) (*FileStream, error) {
 func (f *FileStream) ReadAll() ([]rune, error) {
 	var result []rune
 	for {
+		hadRead := f.hasRead
 		res, err := f.read(defaultReadBlock)
 		if err != nil {
 			return []rune{}, err
@@ -50,6 +51,11 @@ func (f *FileStream) ReadAll() ([]rune, error) {
 			// an incomplete character is pending: the next read either completes it
 			// or reports the error at the end of file
 			if len(f.encBuffer) > 0 {
+				continue
+			}
+			// a short read that delivered the byte-order mark and nothing else
+			// (a pipe, a FIFO) is not the end of the data either
+			if !hadRead && f.hasRead {
 				continue
 			}
 			break
